@@ -1,5 +1,6 @@
 (* C35 driver: runs the extracted collision-detection model (coq/C35/C35_Model.v) with a float NumOps.
      CC c1 u ra rb t (aligned convex-convex family) -> n depth normal[3] location[3] sphere-radius |
+     BP axis XGB1[12] XBS1[12] c1[3] r1 XGB2[12] XBS2[12] c2[3] r2 -> kept centreG1[3] centreG2[3]   (broad-phase bubble test) |
      AS p1 r1 p2 r2 | AH R[9] p1 p2 r                 -> n {depth normal[3] location[3] radius}
      TS sig R[9] p1 r1 p2 r2 cutoff | TH R[9] p1 p2 r cutoff  -> ok kind depth normal[3] origin[3] radius *)
 open C35model
@@ -16,6 +17,11 @@ let run k a =
   | "AH" -> let (r, a) = m33 a in let (p1, a) = v3 a in let (p2, a) = v3 a in let (rad, _) = hd a in pc (hs_sphere fops (r, p1) p2 rad)
   | "CC" -> let (c1, a) = v3 a in let (u, a) = v3 a in let (ra, a) = hd a in let (rb, a) = hd a in let (t, _) = hd a in
             (match cc_axis fops c1 u ra rb t with None -> pf 0.0 | Some ((d, n), l) -> pf 1.0; pf d; p3 n; p3 l; pf (cc_sphere_radius fops ra rb))
+  | "BP" -> let xf a = let (r, a) = m33 a in let (p, a) = v3 a in ((r, p), a) in
+            let (ax, a) = hd a in let (g1, a) = xf a in let (b1, a) = xf a in let (c1, a) = v3 a in let (r1, a) = hd a in
+            let (g2, a) = xf a in let (b2, a) = xf a in let (c2, a) = v3 a in let (r2, _) = hd a in
+            let rec n k = if k <= 0 then O else S (n (k-1)) in
+            pf (if bp_keeps fops (n (int_of_float ax)) g1 b1 c1 r1 g2 b2 c2 r2 then 1.0 else 0.0); p3 (bp_center_G fops g1 b1 c1); p3 (bp_center_G fops g2 b2 c2)
   | "TS" -> let (sg, a) = hd a in let (r, a) = m33 a in let (p1, a) = v3 a in let (r1, a) = hd a in let (p2, a) = v3 a in let (r2, a) = hd a in let (cut, _) = hd a in
             (match tk_sphere_sphere fops sg r p1 r1 p2 r2 cut with Inl c -> pt true c | Inr _ -> pt false None)
   | "TH" -> let (r, a) = m33 a in let (p1, a) = v3 a in let (p2, a) = v3 a in let (rad, a) = hd a in let (cut, _) = hd a in pt true (tk_hs_sphere fops (r, p1) p2 rad cut)
